@@ -383,6 +383,18 @@ pub fn parse_amount(input: &str) -> Result<f64, ParseError> {
         })
 }
 
+/// Whether two amounts are the same decimal number
+///
+/// Amounts are read from decimal texts of at most 15 characters into binary floats, and a sum
+/// of them carries the representation error of its magnitude. A fixed tolerance of one cent
+/// treats 60000000,00 and 60000000,01 as equal; the tolerance here follows the magnitude of the
+/// amounts instead and never exceeds half a cent.
+pub fn amounts_equal(a: f64, b: f64) -> bool {
+    let magnitude = a.abs().max(b.abs());
+    let tolerance = (magnitude * 1e-13).clamp(1e-9, 0.005);
+    (a - b).abs() <= tolerance
+}
+
 /// Validate amount decimal precision for a specific currency (C03 validation)
 ///
 /// SWIFT network validation rule C03 requires that the number of decimal places
